@@ -228,6 +228,11 @@ func runC09(c *fw.Ctx) {
 			c.Sample(map[string]interface{}{"part": "C", "clock_advances_every_n_calls": stall, "calls": names})
 		}
 	}
+	// concurrent local writes on one retained topic (three goroutines): what the node keeps must be what
+	// its broadcasts give a follower
+	for r := 0; r < c.Pick(2, 10); r++ {
+		c20HotTopic(c, 900+r)
+	}
 	distributed.VerifSetClock(func() int64 { tick++; return 1000 + tick })
 	c.Floor("broadcasts_delivered", 1000)
 }
